@@ -303,6 +303,52 @@ func genHistory(w *World, seed uint64, cfg GenCfg, ops io.Writer, obs io.Writer)
 		if anyAbsent(b.Votes) {
 			g.lastUnbondAt = h
 		}
+		if cfg.Mode == "gov" {
+			// the admin is the x/gov account: what the generator wrote as the admin's transactions becomes the message
+			// list of proposals (two consecutive ones now and then merged into one proposal), submitted by an ordinary
+			// account and voted on in the same block by the operators of the genesis validators (one in ten abstains);
+			// x/gov tallies and executes them in the next block; which proposals it executed is read off the run
+			next := r.N.NextProposalID()
+			var txs []Tx
+			var admin [][]Msg
+			govKinds := func(ms []Msg) bool {
+				for _, m := range ms {
+					if m.Kind != "SETPOWER" && m.Kind != "REMOVE" && m.Kind != "RMPENDING" && m.Kind != "PARAMS" {
+						return false // a proposal carries messages signed by the gov account only (x/gov refuses the submission otherwise)
+					}
+				}
+				return true
+			}
+			for _, tx := range b.Txs {
+				if tx.Signer == -1 && govKinds(tx.Msgs) {
+					admin = append(admin, tx.Msgs)
+				} else {
+					txs = append(txs, tx)
+				}
+			}
+			for i := 0; i < len(admin); i++ {
+				ms := append([]Msg{}, admin[i]...)
+				if i+1 < len(admin) && g.R.P(40) {
+					ms = append(ms, admin[i+1]...)
+					i++
+				}
+				txs = append(txs, Tx{Signer: -2, Msgs: []Msg{{Kind: "GOVSUB", Sub: ms}}})
+				for _, gv := range gen.Vals {
+					if !g.R.P(10) {
+						txs = append(txs, Tx{Signer: gv.Op, Msgs: []Msg{{Kind: "VOTE", Args: []string{fmt.Sprint(next)}}}})
+					}
+				}
+				next++
+			}
+			b.Txs = txs
+			out := r.Step(b)
+			for _, gr := range out.Gov {
+				b.Gov = append(b.Gov, gr.Msgs)
+			}
+			WriteBlock(ops, b)
+			blocks++
+			continue
+		}
 		WriteBlock(ops, b)
 		out := r.Step(b)
 		_ = out
@@ -491,6 +537,9 @@ func modeSalt(m string) uint64 {
 	}
 	if m == "guard" {
 		return 900007
+	}
+	if m == "gov" {
+		return 1100009
 	}
 	return 0
 }
